@@ -65,6 +65,11 @@ Enabled(fc, c) ==
   ELSE IF SubOf[c] # None /\ SubOf[c] \in fc.disabled THEN FALSE
   ELSE c \in DefaultOn
 
+\* Options.process_error_codes: "--enable-error-code ... will override disabled error codes from --disable-error-code"
+CodeSets(baseEnabled, baseDisabled, addDisabled, addEnabled) ==
+  [enabled |-> baseEnabled \cup addEnabled,
+   disabled |-> (baseDisabled \cup addDisabled) \ (baseEnabled \cup addEnabled)]
+
 \* ------------------------------------------------------------------ ignore matching
 IgnAt(fc, l) == IF l \in DOMAIN fc.ign THEN fc.ign[l] ELSE NoIgn
 CodeListed(c, ks) == \/ NameOf[c] \in Range(ks)
